@@ -117,4 +117,17 @@ extern int32_t g_k;
     VAR_ENSURES(P_SMALL(p) ==> result->current_variance == OLD(result->current_variance) + (double)(p * p) * OLD(sample->current_variance))
 #define LOOP_lweSubMulTo_0(i) LWE_LOOP(i, params->n, result->a, U32(LENTRY(result->a[GKP])) - U32(p) * U32(sample->a[GKP]))
 
+/* ---- lwePhase: b - sum a_i*s_i.  The sum has no closed form CBMC can carry through an invariant: this contract is the
+ * safety + frame part (every n, unbounded); the functional statement is the bounded pairing check of C03. */
+#define LWE_KEY_OK(k_, n_) (__CPROVER_is_fresh(k_, sizeof(LweKey)) && __CPROVER_is_fresh((k_)->params, sizeof(LweParams)) && (k_)->params->n == (n_) \
+    && __CPROVER_is_fresh((k_)->key, (size_t)(n_) * sizeof(int32_t)))
+extern int32_t g_n;
+#define CONTRACT_lwePhase \
+    __CPROVER_requires(g_n >= 1 && g_n <= VERIF_NMAX && LWE_KEY_OK(key, g_n) && LWE_SAMPLE_OK(sample, g_n)) \
+    __CPROVER_assigns()
+#define LOOP_lwePhase_0(i) \
+    __CPROVER_assigns(i, axs) \
+    __CPROVER_loop_invariant(0 <= i && i <= n) \
+    __CPROVER_decreases(n - i)
+
 #endif
